@@ -219,29 +219,63 @@ func TableFor(sql string) (string, error) {
 
 // unterminatedBacktick reports whether the given SQL ends inside of a
 // backtick-quoted identifier. The tokenizer of the SQL parser never returns
-// from that (it keeps appending to its buffer until memory runs out).
+// from that (it keeps appending to its buffer until memory runs out). Like
+// the tokenizer, this doesn't look for backticks inside of quoted strings and
+// comments.
 func unterminatedBacktick(sql string) bool {
-	var quote byte
+	skipLine := func(i int) int {
+		for i < len(sql) && sql[i] != '\n' {
+			i++
+		}
+		return i
+	}
 	for i := 0; i < len(sql); i++ {
 		c := sql[i]
+		next := byte(0)
+		if i+1 < len(sql) {
+			next = sql[i+1]
+		}
 		switch {
-		case quote == 0:
-			if c == '\'' || c == '"' || c == '`' {
-				quote = c
+		case c == '`':
+			// identifier, a doubled backtick doesn't end it
+			for i++; ; i++ {
+				if i >= len(sql) {
+					return true
+				}
+				if sql[i] == '`' {
+					if i+1 < len(sql) && sql[i+1] == '`' {
+						i++
+						continue
+					}
+					break
+				}
 			}
-		case quote == '`':
-			if c == '`' {
-				quote = 0
+		case c == '\'' || c == '"':
+			// string, ends with the same quote unless that's escaped
+			for i++; i < len(sql); i++ {
+				if sql[i] == '\\' {
+					i++
+				} else if sql[i] == c {
+					break
+				}
 			}
-		default:
-			if c == '\\' {
-				i++
-			} else if c == quote {
-				quote = 0
+		case c == '#', c == '-' && next == '-', c == '/' && next == '/':
+			// comment up to the end of the line
+			i = skipLine(i)
+		case c == '/' && next == '*':
+			if i+2 < len(sql) && sql[i+2] == '!' {
+				// the content of a MySQL specific comment is tokenized like SQL
+				i += 2
+				continue
 			}
+			end := strings.Index(sql[i+2:], "*/")
+			if end < 0 {
+				return false
+			}
+			i += 2 + end + 1
 		}
 	}
-	return quote == '`'
+	return false
 }
 
 // Parse parses a SQL statement and returns a corresponding *Query object.
